@@ -1233,9 +1233,9 @@ func toString(v interface{}) string {
 	case []byte:
 		return string(val)
 	case fmt.Stringer:
-		return val.String()
+		return stringOfNilSafe(v, func() string { return val.String() })
 	case error:
-		return val.Error()
+		return stringOfNilSafe(v, func() string { return val.Error() })
 	case Node:
 		return ""
 	}
